@@ -334,3 +334,10 @@ def classify(v, case):
         # strongly typed array: the C03 finding seen from the spelling side
         return "pyscalar-strong-promotion"
     return m
+
+
+def witness_cases():
+    return [{"kind": "spell", "ci": 1, "seed": None, "nonconst": True, "prog": [
+        {"k": "leaf", "out": "x1", "kind": "tensor", "dtype": "float32", "shape": [2], "data": [1.5, 2.5], "constant": None, "layout": "C"},
+        {"k": "call", "out": "v2", "fn": "power", "a": [["r", "x1"], 2], "sp": "mg"},
+        {"k": "backward", "tgt": "v2", "seed": None}]}]
